@@ -428,7 +428,10 @@ impl TaskQueue {
     #[allow(clippy::type_complexity)]
     pub(crate) fn verif_contents(
         &self,
-    ) -> (Vec<(Priority, Vec<TaskId>)>, Option<(Priority, Vec<TaskId>)>) {
+    ) -> (
+        Vec<(Priority, Vec<TaskId>)>,
+        Option<(Priority, Vec<TaskId>)>,
+    ) {
         let ready = self
             .queue
             .iter()
